@@ -18,7 +18,7 @@ ID = "C17"
 LEVEL = "exploration"
 RULE = (
     "Hypothesis over all six built-in methods (norm, uniform, truncnorm, sobol, halton, lhs), R,P,n in 1..6, "
-    "variable masks, 1-3 samplers assigned to disjoint variable sets, shared on/off, seeds, 1-3 consecutive calls; "
+    "variable masks, 1-3 samplers assigned to disjoint variable sets (variables may have no sampler), realization weights with zeros, shared on/off, seeds, 1-3 consecutive calls; "
     "'direct' cases call plugin.create(...).generate_samples(), 'e2e' cases read perturbed_variables - variables from "
     "EnsembleEvaluator (x=0, magnitude 1, boundary NONE). Oracles: shape, exact zeros in unhandled columns, shared/"
     "per-realization, range [-1,1], QMC differential (row multiset == points of an identically seeded scipy.stats.qmc "
@@ -41,7 +41,7 @@ def build_config(case: dict[str, Any]) -> EnOptConfig:
     n = case["n"]
     cfg: dict[str, Any] = {
         "variables": {"initial_values": [0.0] * n},
-        "realizations": {"weights": [1.0] * case["R"]},
+        "realizations": {"weights": case.get("weights") or [1.0] * case["R"]},
         "gradient": {
             "number_of_perturbations": case["P"],
             "perturbation_magnitudes": 1.0,
@@ -93,6 +93,9 @@ def check_samples(case: dict[str, Any], spec: dict[str, Any], mask: np.ndarray, 
         elif r_n >= 2:  # noqa: PLR2004
             check(not bool(np.all(h == h[:1])), "not-per-realization",
                   f"{method}: all realizations received identical perturbations without shared", case)
+            blank = [r for r in range(r_n) if not np.any(h[r])]
+            check(not blank, "not-per-realization", f"{method}: realizations {blank} received no perturbations at all "
+                  f"(realization weights {case.get('weights')})", case)
         if method in BOUNDED:
             opts = spec.get("options") or {}
             limit = 1.0
@@ -198,19 +201,26 @@ def hypothesis_shard(item: dict[str, Any]) -> Collector:
                 mask[draw(st.integers(0, n - 1))] = True
         case["mask"] = mask
         if s_n > 1 or draw(st.booleans()):
-            assign = [draw(st.integers(-1 if s_n == 1 else 0, s_n - 1)) for _ in range(n)]
+            assign = [draw(st.integers(-1, s_n - 1)) for _ in range(n)]
             free = [i for i in range(n) if mask is None or mask[i]]
             if all(assign[i] < 0 for i in free):
                 assign[free[0]] = 0
             case["assign"] = assign
         else:
             case["assign"] = None
+        case["weights"] = None
+        if draw(st.integers(0, 2)) == 0:
+            case["weights"] = [draw(st.sampled_from([0.0, 0.0, 1.0, 2.5])) for _ in range(case["R"])]
+            if not any(case["weights"]):
+                case["weights"][draw(st.integers(0, case["R"] - 1))] = 1.0
         return case
 
     def body(case: dict[str, Any]) -> None:
         replay(case)
         nontrivial = False
-        classes = [case["kind"], f"samplers={len(case['samplers'])}", "masked" if case["mask"] else "unmasked"]
+        classes = [case["kind"], f"samplers={len(case['samplers'])}", "masked" if case["mask"] else "unmasked",
+                   "zero-weight-realizations" if case["weights"] and 0.0 in case["weights"] else "positive-weights",
+                   "variables-without-sampler" if case["assign"] and -1 in case["assign"] else "all-assigned"]
         for idx, spec in enumerate(case["samplers"]):
             d = int(handled_mask(case, idx).sum())
             points = case["P"] * (1 if spec["shared"] else case["R"])
